@@ -9,8 +9,10 @@ from common.checklib import Check, parse_args  # noqa: E402
 from streamworld import sw  # noqa: E402
 
 
-class Hang(Exception):
-    pass
+class Hang(BaseException):
+    """Raised by the alarm of time_limit inside whatever code is running.  Not an Exception: the nodes under test are run
+    under `except Exception` (an error they report is an outcome), and a reader that does not terminate must not pass
+    for one that reported an error."""
 
 
 @contextlib.contextmanager
